@@ -37,3 +37,17 @@ def is_false(v):
     if isinstance(v, tuple) and v[0] == 'not' and tuple(v[1]) == (1,):
         return True
     return False
+
+
+def pin(v, domain=(0, 1)):
+    """the single discriminant value a condition leaves possible within `domain`, else None
+    (`x not in [1]` on a two-valued enum means x == 0)"""
+    if isinstance(v, bool):
+        return int(v)
+    if isinstance(v, int):
+        return v
+    if isinstance(v, tuple) and v and v[0] == 'not':
+        rest = [d for d in domain if d not in v[1]]
+        if len(rest) == 1:
+            return rest[0]
+    return None
